@@ -816,6 +816,42 @@ func (env *rEnv) call(n *rNode) Value {
 		if len(n.Args) == 2 && n.Args[0].Op == "str" && n.Args[1].Op == "str" {
 			return sym(BoolLit(schemaHasUnique(e.schemaText, n.Args[0].Text, n.Args[1].Text)))
 		}
+	case "marshalof":
+		// marshalof(x): the bytes json.Marshal produces for x (a function of x's JSON value)
+		return sym(App(SBytes, "j.marshal", e.jsonOfValue(env.post, env.eval(n.Args[0]))))
+	case "calloutmap":
+		// calloutmap("Short", i): identity of the map the last modular call to Short stored through its i-th (pointer)
+		// argument (contracts with `flag outparams=`)
+		if n.Args[0].Op == "str" {
+			if idx, ok := constIndex(env.eval(n.Args[1])); ok {
+				for i := len(env.post.trace) - 1; i >= 0; i-- {
+					if ev := env.post.trace[i]; ev.Kind == "call:"+n.Args[0].Text {
+						if t, ok := ev.Terms[fmt.Sprintf("outmap%d", idx)]; ok {
+							return sym(t)
+						}
+						return env.fail("argument %d of %s is not an out-parameter holding a map", idx, n.Args[0].Text)
+					}
+				}
+			}
+			return env.fail("no call to %s on this path", n.Args[0].Text)
+		}
+	case "byteat":
+		// byteat(b, i): the i-th byte of the byte slice b
+		return sym(App(SInt, "b.at", argT(0), argT(1)))
+	case "nilmap":
+		// nilmap(x): the Go map x denotes (a map value or an interface holding one) is a nil map; an interface holding a
+		// nil map is itself not nil, so `x != nil` does not say this
+		v := env.eval(n.Args[0])
+		if iv, ok := v.(VIface); ok {
+			v = iv.V
+		}
+		switch x := v.(type) {
+		case VMap:
+			return sym(e.isNilTerm(env.post, x))
+		case VNil:
+			return sym(TTrue)
+		}
+		return env.fail("nilmap: %s is not a map (%s)", nodeText(n.Args[0]), showValue(v))
 	case "mapid":
 		// mapid(x): identity of the Go map x denotes (a map value, an interface holding one, or a decoded JSON object)
 		v := env.eval(n.Args[0])
@@ -852,6 +888,17 @@ func (env *rEnv) call(n *rNode) Value {
 			}
 		}
 		return env.fail("no map write on this path")
+	case "deletedpresent":
+		// deletedpresent(): the key removed by the last map delete on this path was present in the map
+		for i := len(env.post.trace) - 1; i >= 0; i-- {
+			if ev := env.post.trace[i]; ev.Kind == "mapdelete" {
+				if t, ok := ev.Terms["present"]; ok {
+					return sym(t)
+				}
+				return env.fail("the last map delete is on a map without an SMT image")
+			}
+		}
+		return env.fail("no map delete on this path")
 	case "mapwasread":
 		// mapwasread(id, key): some lookup on this path read that key of that map
 		id, key := argT(0), argT(1)
